@@ -62,30 +62,16 @@ theorem mem_of_lookup {β : Type} (l : List (Aid × β)) (a : Aid) (v : β) (h :
     · exact List.mem_cons_of_mem _ (ih h)
 
 theorem stepOK_of_b {cfg : Cfg} {w0 w : World} {acts : List (Aid × Act)} (hF : SFrame w0 w)
-    (h1 : stepMustNotRaise cfg w acts = true) (h2 : stepSafe cfg w0 acts = true) : StepOK cfg w0 acts := by
+    (h1 : stepMustNotRaise cfg w acts = true) : StepOK cfg w0 acts := by
   have hn : w.n = w0.n := sframe_n hF
   simp only [stepMustNotRaise, Bool.and_eq_true, List.all_eq_true] at h1
   obtain ⟨⟨⟨⟨hin, _⟩, hlearn⟩, hdt⟩, hcls⟩ := h1
-  have hbattle : (cfg.which = .teamBattle ∨ cfg.which = .predatorPrey) →
-      ∀ x ∈ acts, ∃ k, x.2.attack = .count k ∧ k ≤ 1 := by
-    intro hw x hx
-    have : (acts.all fun x => match x.2.attack with | .count k => decide (k ≤ 1) | _ => false) = true := by
-      unfold stepSafe at h2
-      rcases hw with hw | hw <;> rw [hw] at h2 <;> simp only [Bool.and_eq_true] at h2
-      · exact h2.1
-      · exact h2
-    have := List.all_eq_true.mp this x hx
-    cases ha : x.2.attack with
-    | count k => rw [ha] at this; exact ⟨k, rfl, by simpa using this⟩
-    | perEnc l => rw [ha] at this; cases this
-    | grid l => rw [ha] at this; cases this
-    | cells l => rw [ha] at this; cases this
   have hitem : ∀ x ∈ acts, ItemOK cfg w0 x := by
     intro x hx
     have hi := hin x hx
     simp only [actInSpace, Bool.and_eq_true, decide_eq_true_eq] at hi
     obtain ⟨⟨hlt, hmv⟩, hat⟩ := hi
-    refine ⟨by rw [← hn]; exact hlt, hlearn x hx, by rw [← inSpace_move_sframe hF]; exact hmv, ?_, fun hw => hbattle hw x hx⟩
+    refine ⟨by rw [← hn]; exact hlt, hlearn x hx, by rw [← inSpace_move_sframe hF]; exact hmv, ?_⟩
     intro hw hatt
     rcases hw with hw | hw <;> rw [hw] at hat <;> simp only [Bool.or_eq_true, Bool.not_eq_true'] at hat
     · rcases hat with hat | hat
@@ -94,12 +80,7 @@ theorem stepOK_of_b {cfg : Cfg} {w0 w : World} {acts : List (Aid × Act)} (hF : 
     · rcases hat with hat | hat
       · rw [sframe_cfgOf hF, hatt] at hat; cases hat
       · rw [← inSpace_attack_sframe hF]; exact hat
-  refine ⟨hitem, ?_, ?_, ?_⟩
-  · intro hw v hv
-    unfold stepSafe at h2
-    rw [hw] at h2
-    simp only [Bool.and_eq_true, List.all_eq_true, List.mem_range] at h2
-    exact h2.2 v hv
+  refine ⟨hitem, ?_, ?_⟩
   · intro hw
     rw [hw] at hcls
     simp only [Bool.and_eq_true, decide_eq_true_eq] at hcls
@@ -235,10 +216,6 @@ structure WorldOK (w0 : World) : Prop where
   enc : ∀ b < w0.n, 0 < w0.encOf b
   ammo : ∀ b < w0.n, 0 ≤ (w0.cfgOf b).initAmmo
 
-/-- the hypotheses on one call of the history -/
-def OpOK2 (cfg : Cfg) (w0 : World) (op : EOp) : Prop :=
-  OpOK cfg w0 op ∧ ∀ acts t, op = .step acts t → stepSafe cfg w0 acts = true
-
 theorem good_inv {cfg : Cfg} {w0 : World} {s : St} {r : Ledger} (hG : Good cfg w0 s) (hr : s.rewards = some r) :
     Inv cfg w0 s.w := by
   unfold Good at hG
@@ -246,16 +223,15 @@ theorem good_inv {cfg : Cfg} {w0 : World} {s : St} {r : Ledger} (hG : Good cfg w
   exact hG
 
 /-- **one call of the model passes the judge** -/
-theorem judge1_model {cfg : Cfg} {w0 : World} {ledger : Bool} (hW : WorldOK w0)
-    (hled : ledger = true → cfg.which ≠ .multiMaze) (s : St) (op : EOp) (hop : OpOK2 cfg w0 op)
-    (hG : GoodP cfg w0 s) : judge1 cfg w0 ledger ⟨s.w, s.rewards⟩ op (runOp cfg s op).1 = true := by
+theorem judge1_model {cfg : Cfg} {w0 : World} (hW : WorldOK w0) (s : St) (op : EOp) (hop : OpOK cfg w0 op)
+    (hG : GoodP cfg w0 s) : judge1 cfg w0 ⟨s.w, s.rewards⟩ op (runOp cfg s op).1 = true := by
   cases op with
   | reset order tape =>
     simp only [runOp]
     cases h : reset cfg order { s with tape := tape } with
     | error e => simp [judge1]
     | ok s' =>
-      obtain ⟨_, hX⟩ := reset_good hW.cfgok hW.fresh hop.1 (s := { s with tape := tape }) hG.1.1 h
+      obtain ⟨_, hX⟩ := reset_good hW.cfgok hW.fresh hop (s := { s with tape := tape }) hG.1.1 h
       simp [judge1, hX.inv, frameb_of_sframe hX.frame, reset_shape h]
   | step acts tape =>
     simp only [runOp]
@@ -271,7 +247,7 @@ theorem judge1_model {cfg : Cfg} {w0 : World} {ledger : Bool} (hW : WorldOK w0)
           · by_cases h3 : ledgerFullb cfg s.w.n r = true
             · exfalso
               have hI := good_inv hG.1.1 hr
-              have hS := stepOK_of_b hI.xinv.frame h2 (hop.2 acts tape rfl)
+              have hS := stepOK_of_b hI.xinv.frame h2
               obtain ⟨s', hs'⟩ := step_ok hW.cfgok { s with tape := tape } hG.1 (by simp [hr]) acts hS
               rw [hs'] at h; cases h
             · exact Or.inr (by simpa using h3)
@@ -279,7 +255,7 @@ theorem judge1_model {cfg : Cfg} {w0 : World} {ledger : Bool} (hW : WorldOK w0)
         · exact Or.inl (Or.inl (by simpa using h1))
     | ok s' =>
       obtain ⟨r, p, hr, hp, hs'⟩ := step_shape h
-      obtain ⟨_, _, _, _, hI⟩ := step_good hW.cfgok hop.1 (s := { s with tape := tape }) hG.1.1 h
+      obtain ⟨_, _, _, _, hI⟩ := step_good hW.cfgok hop (s := { s with tape := tape }) hG.1.1 h
       have hk := stepPS_keylist hp
       simp only at hr hk
       subst hs'
@@ -307,15 +283,11 @@ theorem judge1_model {cfg : Cfg} {w0 : World} {ledger : Bool} (hW : WorldOK w0)
     | ok r =>
       obtain ⟨x, s'⟩ := r
       obtain ⟨r0, hr0, hv, rfl⟩ := getReward_shape h
-      simp only [judge1, hr0, beq_self_eq_true, Bool.true_and, Bool.or_eq_true, Bool.not_eq_true', beq_iff_eq]
-      cases hl : ledger with
-      | false => exact Or.inl rfl
-      | true =>
-        right
-        rw [rewardVal_smart (hled hl)] at hv
-        cases hlk : r0.lookup a with
-        | none => rw [hlk] at hv; cases hv
-        | some y => rw [hlk] at hv; cases hv; rfl
+      simp only [judge1, hr0, beq_self_eq_true, Bool.true_and, beq_iff_eq]
+      simp only [rewardVal] at hv
+      cases hlk : r0.lookup a with
+      | none => rw [hlk] at hv; cases hv
+      | some y => rw [hlk] at hv; cases hv; rfl
   | done a =>
     simp only [runOp, getDone]
     cases hr : s.rewards with
@@ -336,17 +308,16 @@ theorem judge1_model {cfg : Cfg} {w0 : World} {ledger : Bool} (hW : WorldOK w0)
       | ok b => simp [judge1, resOfBool, hd]
 
 /-- **the model's own trace passes the judge**, from any good state -/
-theorem specFrom_model {cfg : Cfg} {w0 : World} {ledger : Bool} (hW : WorldOK w0)
-    (hled : ledger = true → cfg.which ≠ .multiMaze) :
-    ∀ (ops : List EOp) (s : St), (∀ op ∈ ops, OpOK2 cfg w0 op) → GoodP cfg w0 s →
-      specFrom cfg w0 ledger ⟨s.w, s.rewards⟩ (zipOps ops (runOps cfg s ops).1) = true := by
+theorem specFrom_model {cfg : Cfg} {w0 : World} (hW : WorldOK w0) :
+    ∀ (ops : List EOp) (s : St), (∀ op ∈ ops, OpOK cfg w0 op) → GoodP cfg w0 s →
+      specFrom cfg w0 ⟨s.w, s.rewards⟩ (zipOps ops (runOps cfg s ops).1) = true := by
   intro ops
   induction ops with
   | nil => intro s _ _; rfl
   | cons op ops ih =>
     intro s hops hG
-    have hj := judge1_model hW hled s op (hops op List.mem_cons_self) hG
-    have hG' := runOp_goodP hW.cfgok hW.fresh s op (hops op List.mem_cons_self).1 hG
+    have hj := judge1_model hW s op (hops op List.mem_cons_self) hG
+    have hG' := runOp_goodP hW.cfgok hW.fresh s op (hops op List.mem_cons_self) hG
     simp only [runOps]
     cases he : (runOp cfg s op).1.res.isErr with
     | true =>
@@ -361,22 +332,19 @@ theorem specFrom_model {cfg : Cfg} {w0 : World} {ledger : Bool} (hW : WorldOK w0
 
 /-- `exPre` is the conjunction of the hypotheses -/
 theorem exPre_hyps {cfg : Cfg} {w0 : World} {ops : List EOp} (h : exPre cfg w0 ops = true) :
-    WorldOK w0 ∧ ∀ op ∈ ops, OpOK2 cfg w0 op := by
+    WorldOK w0 ∧ ∀ op ∈ ops, OpOK cfg w0 op := by
   simp only [exPre, Bool.and_eq_true, List.all_eq_true, allAgents, List.mem_range, decide_eq_true_eq] at h
   obtain ⟨⟨⟨⟨⟨h1, h2⟩, _⟩, h4⟩, _⟩, h6⟩ := h
   refine ⟨⟨(cfgOKb_iff w0).mp h1, h2, fun b hb => (h4 b hb).1, fun b hb => (h4 b hb).2⟩, ?_⟩
   intro op hop
   have := h6 op hop
   cases op with
-  | reset order tape => exact ⟨resetOK_of_b this, fun _ _ hc => by cases hc⟩
-  | step acts tape =>
-    simp only [Bool.and_eq_true] at this
-    refine ⟨actsOK_of_b this.1, fun acts' t' hc => ?_⟩
-    cases hc; exact this.2
-  | obs a tape => exact ⟨trivial, fun _ _ hc => by cases hc⟩
-  | rew a => exact ⟨trivial, fun _ _ hc => by cases hc⟩
-  | done a => exact ⟨trivial, fun _ _ hc => by cases hc⟩
-  | allDone => exact ⟨trivial, fun _ _ hc => by cases hc⟩
+  | reset order tape => exact resetOK_of_b this
+  | step acts tape => exact actsOK_of_b this
+  | obs a tape => trivial
+  | rew a => trivial
+  | done a => trivial
+  | allDone => trivial
 
 end Ex
 end Abmarl
